@@ -81,6 +81,10 @@ def canon(v):
         if math.isinf(v):
             return ("inf", v > 0)
         return Fraction(v)
+    if isinstance(v, Fraction):
+        return v
+    if isinstance(v, complex):
+        return canon(v.real) if v.imag == 0 else ("c", canon(v.real), canon(v.imag))
     if isinstance(v, str):
         return ("s", str(v))
     if isinstance(v, (list, tuple)):
@@ -624,8 +628,10 @@ def check_op(case, real=None):
         cols, reverse = sort_columns_spec(H, case["columns"], case["reverse"])
         kinds = {h: col_kind(c) for h, c in zip(H, t["cols"])}
         if "err" in real:
-            rk = sorted({("rev-" if c in reverse else "fwd-") + kinds[c] for c in cols})
-            return (f"sorted raised {real['err']}", "a sorted permutation of the rows", real, f"sorted:raises:{real['err']}:{'+'.join(rk)}")
+            # the class of the failure: kinds of the reversed key columns that are neither numeric nor str
+            rk = sorted({"rev-" + kinds[c] for c in cols if c in reverse and kinds[c] not in ("num", "str")}) or ["other"]
+            return (f"sorted(columns={case['columns']}, reverse={case['reverse']}) raised {real['err']}: {real.get('msg')}",
+                    "a sorted permutation of the rows", real, f"sorted:raises:{real['err']}:{'+'.join(rk)}")
         R = rows_of(t)
         if real["header"] != H:
             return ("sorted changed the header", H, real["header"], "sorted:header")
@@ -659,7 +665,8 @@ def check_op(case, real=None):
         if exp["values"] != real["values"] or real["size"] != len(exp["values"]):
             return (f"{op} differs from the set of row tuples", show(sorted(exp["values"], key=repr)), show(sorted(real["values"], key=repr)), f"{op}:values")
         return None
-    if [str(h) for h in real["header"]] != exp["header"]:
+    # (a result without rows is not asked for its header: Table.__getitem__ drops zero-length columns)
+    if real["rows"] and [str(h) for h in real["header"]] != exp["header"]:
         return (f"{op}: header differs", exp["header"], real["header"], f"{op}:header")
     if canon_rows(real["rows"]) != canon_rows(exp["rows"]):
         sig = f"{op}:rows"
@@ -703,6 +710,10 @@ def parse_num(e):
         pass
     try:
         return float(e)
+    except (ValueError, TypeError):
+        pass
+    try:
+        return complex(e)  # cast_str_to_numeric tries int, float, complex
     except (ValueError, TypeError):
         return None
 
@@ -776,8 +787,11 @@ def check_file(ctx, td, fmt, counter=[0]):
         nums = [parse_num(e) for e in E]
         if E and all(n is not None for n in nums):
             # numeric column (every cell text is a number): restored as numbers
+            all_int = all(isinstance(n, int) for n in nums)
             for e, n, w in zip(E, nums, got):
-                okv = isinstance(w, (int, float)) and not isinstance(w, bool) and (canon(w) == canon(n))
+                okv = isinstance(w, (int, float, complex)) and not isinstance(w, bool) and (canon(w) == canon(n))
+                if all_int and not isinstance(w, int):
+                    okv = False  # a column of integer texts comes back as ints (text unchanged), not as 1.0
                 if not okv and loaded_text(w) != e:
                     return (f"{fmt}: numeric column {h!r} not restored as numbers", E, show(got), f"load:{kind}:numeric-column")
             continue
@@ -966,8 +980,13 @@ def compare_model_real(case, rep, real):
         me, re_ = rep.get("err"), real.get("err")
         if me == re_:
             return None
-        if op == "sorted" and re_ == "ValueError" and me is None and len(case["t"]["cols"][0]) == 0:
-            return None
+        if op == "sorted" and me and re_:
+            # keys outside the property's domain (object columns: None / mixed types): python offers no order for
+            # them; which of AttributeError / TypeError surfaces first is not compared
+            H = case["t"]["header"]
+            cols, _ = sort_columns_spec(H, case["columns"], case["reverse"])
+            if any(c in H and col_kind(case["t"]["cols"][H.index(c)]) == "obj" for c in cols):
+                return None
         return (f"{op}: model error {me} vs real {re_}", rep, real)
     if op == "count_unique":
         m = Counter({tuple(uncell(x) for x in k): n for k, n in rep})
@@ -994,6 +1013,20 @@ def compare_model_real(case, rep, real):
     return None
 
 
+def model_as_real(case, rep):
+    """the model's reply in the shape of run_real()'s result (to put the *model* under the row oracle)"""
+    def val(j):
+        return unrat(j["f"]) if isinstance(j, dict) else j
+
+    if isinstance(rep, dict) and "err" in rep:
+        return dict(err=rep["err"], msg="(model)")
+    if case["op"] == "count_unique":
+        return dict(counts=Counter({tuple(canon(val(x)) for x in k): n for k, n in rep}))
+    if case["op"] == "distinct_values":
+        return dict(values={tuple(canon(val(x)) for x in k) for k in rep}, size=len(rep))
+    return dict(header=rep["header"], rows=[[val(x) for x in r] for r in rep["rows"]], shape=[len(rep["rows"]), rep.get("ncols", 0)])
+
+
 def malformed_case(rng):
     """inputs off the happy path: unknown column names, key dimension mismatch, partial reverse overlap,
     reversed bool / mixed columns"""
@@ -1018,6 +1051,8 @@ def malformed_case(rng):
         return dict(op="sorted", t=t, columns=rng.choice([["b"], ["i", "b"], None]), reverse=["b"])
     if k == "revobj":
         return dict(op="sorted", t=t, columns=None, reverse=["m"])
+    t = gen_table(rng, nrows=rng.choice([2, 3, 5]), names=["i", "s", "b", "m"], kinds=["int", "str", "bool", "mixed"])
+    t["cols"][3][rng.randrange(len(t["cols"][3]))] = None  # a None among the first key column: every sort compares it
     return dict(op="sorted", t=t, columns=["m", "i"], reverse=None)
 
 
@@ -1031,8 +1066,8 @@ def correspondence(ctx):
     corr_csv(ctx, out)
     corr_table_text(ctx, out)
     rng = ctx.subrng("corr-ops")
-    cases = [gen_case(rng) for _ in range(ctx.budget(1500, 25000))]
-    cases += [malformed_case(rng) for _ in range(ctx.budget(150, 2500))]
+    cases = [gen_case(rng) for _ in range(ctx.budget(5000, 60000))]
+    cases += [malformed_case(rng) for _ in range(ctx.budget(500, 6000))]
     cases = [c for c in cases if modelable(c)]
     reps = ctx.driver.batch([model_req(c) for c in cases])
     for case, rep in zip(cases, reps):
@@ -1044,6 +1079,17 @@ def correspondence(ctx):
             bump(out, "real_error", real["err"])
         d = compare_model_real(case, rep, real)
         if d:
+            # The model mirrors the code as it is, including the behaviours listed as known findings.  Where the
+            # implementation and the model differ, the implementation satisfies the row oracle and the model does
+            # not, the code has been repaired there and the (stale) model is the one that is wrong: not a mismatch
+            # of interest.  Every other difference is reported.
+            try:
+                conforms = check_op(case, real) is None and check_op(case, model_as_real(case, rep)) is not None
+            except Exception:  # noqa: BLE001
+                conforms = False
+            if conforms:
+                bump(out, "model_stale_where_code_conforms_to_spec", case["op"])
+                continue
             add_failure(out, "corr", d[0], case, d[1], d[2], confirmed=False)
             continue
         if "err" in real or real.get("rows") or real.get("counts") or real.get("values"):
@@ -1083,8 +1129,16 @@ def spec_check(ctx, budget):
         "distinct (format, table) with >= 1 row"
     )
     rng = ctx.subrng(f"spec{budget}")
+    per_sig = Counter()
+
+    def fail(what, inp, exp, got, sig):
+        per_sig[sig] += 1
+        bump(out, "spec_failure_sig", sig)
+        if per_sig[sig] <= 3:  # keep a few of each class so that one class cannot crowd out another
+            add_failure(out, "spec", what, inp, exp, got, confirmed=True, sig=sig)
+
     cases = exhaustive_sort_cases()
-    cases += [gen_case(rng) for _ in range(1200 * budget)]
+    cases += [gen_case(rng) for _ in range(3000 * budget)]
     for c in cases:
         if c["op"] == "cross_join" and rng.random() < 0.5:
             c["via_joined"] = True
@@ -1094,7 +1148,7 @@ def spec_check(ctx, budget):
         bump(out, "spec_op", case["op"])
         f = check_op(case, real)
         if f:
-            add_failure(out, "spec", f[0], dict(kind="op", case=case), f[1], f[2], confirmed=True, sig=f[3])
+            fail(f[0], dict(kind="op", case=case), f[1], f[2], f[3])
             continue
         if real.get("rows") or real.get("counts") or real.get("values"):
             out["nontrivial"].add((case["op"], repr(case)[:300]))
@@ -1102,7 +1156,7 @@ def spec_check(ctx, budget):
             out["samples"].append(dict(case=show(case), result=show(real["rows"][:6])))
     # file round trips
     frng = ctx.subrng(f"file{budget}")
-    tables = [gen_file_table(frng) for _ in range(60 * budget)]
+    tables = [gen_file_table(frng) for _ in range(150 * budget)]
     # a few fixed shapes: zero rows, one empty cell, cells that are only delimiter / quote
     tables += [
         dict(header=["a", "b"], cols=[[], []], title="", legend=""),
@@ -1116,7 +1170,7 @@ def spec_check(ctx, budget):
             bump(out, "file_format", fmt)
             f = check_file(ctx, td, fmt)
             if f:
-                add_failure(out, "spec", f[0], dict(kind="file", table=td, format=fmt), f[1], f[2], confirmed=True, sig=f[3])
+                fail(f[0], dict(kind="file", table=td, format=fmt), f[1], f[2], f[3])
             elif td["cols"] and td["cols"][0]:
                 out["nontrivial"].add(("file", fmt, repr(td)[:300]))
         bump(out, "file_rows", len(td["cols"][0]) if td["cols"] else 0)
@@ -1151,6 +1205,24 @@ def match_finding(f, k):
             return False
     if r.get("formats") and inp.get("format") not in r["formats"]:
         return False
+    if r.get("empty_side"):
+        case = inp.get("case") or {}
+        sizes = [len(td["cols"][0]) if td.get("cols") else 0 for td in (case.get("t") or {}, case.get("u") or {})]
+        if 0 not in sizes:
+            return False
+    if r.get("eval_raises_if_raises") and ":raises:" in f.get("sig", ""):
+        # the exception must be the one eval() of some text cell raises
+        want = f["sig"].split(":")[3]
+        hit = False
+        for col in (inp.get("table") or {}).get("cols", []):
+            for v in col:
+                if isinstance(v, str) and not eval_dangerous(v):
+                    try:
+                        eval(v, {}, {})  # noqa: S307
+                    except Exception as e:  # noqa: BLE001
+                        hit = hit or type(e).__name__ == want
+        if not hit:
+            return False
     return True
 
 
